@@ -25,7 +25,7 @@ pub fn execute(case: &Sexp, sched: Option<Sched>) -> (async_graphql::Response, A
     w.sched = sched;
     let w = Arc::new(w);
     let text = a[5].as_str().unwrap();
-    let schema = build_schema();
+    let dynamic = a.get(7).and_then(|k| k.as_atom()).is_some_and(|k| k.starts_with("dyn"));
     let mut req = async_graphql::Request::new(text).data(w.clone());
     if let Some(n) = a[2].as_str() {
         req = req.operation_name(n);
@@ -35,7 +35,7 @@ pub fn execute(case: &Sexp, sched: Option<Sched>) -> (async_graphql::Response, A
         vs.insert(async_graphql::Name::new(k), v.to_avalue());
     }
     req = req.variables(vs);
-    let resp = spin_on(schema.execute(req));
+    let resp = if dynamic { spin_on(build_dyn_schema().execute(req)) } else { spin_on(build_schema().execute(req)) };
     (resp, w)
 }
 
@@ -79,6 +79,80 @@ pub fn run(case: &Sexp, dist: &mut Dist) -> Sexp {
         outs.push(node("run", vec![response_sexp(&resp, &w), trace_sexp(&w)]));
     }
     node("out", outs)
+}
+
+// ------------------------------------------------------------------ a dynamic schema with the same gated resolvers
+
+use async_graphql::dynamic as dy;
+
+fn dyn_conv(rv: RVal) -> async_graphql::Result<Option<dy::FieldValue<'static>>> {
+    fn item(x: &RVal) -> dy::FieldValue<'static> {
+        match x {
+            RVal::Obj(_, id) => dy::FieldValue::owned_any(*id),
+            RVal::Leaf(GV::Int(i)) => dy::FieldValue::value(*i),
+            _ => dy::FieldValue::NULL,
+        }
+    }
+    match rv {
+        RVal::Null => Ok(None),
+        RVal::Fail(m) => Err(m.into()),
+        RVal::List(xs) => Ok(Some(dy::FieldValue::list(xs.iter().map(item).collect::<Vec<_>>()))),
+        RVal::Arg(_) => Ok(None),
+        other => Ok(Some(item(&other))),
+    }
+}
+
+fn dyn_field(name: &str, ty: dy::TypeRef) -> dy::Field {
+    dy::Field::new(name, ty, |ctx: dy::ResolverContext| {
+        dy::FieldFuture::new(async move {
+            let id = ctx.parent_value.try_downcast_ref::<u32>().ok().copied().unwrap_or(0);
+            let rv = gated_get(ctx.ctx, id).await;
+            dyn_conv(rv)
+        })
+    })
+}
+
+/// objects A (ids 1-3), B (4-6), C (7-9) as in the static family's pool; every field resolver is
+/// the same gated, traced world lookup
+pub fn build_dyn_schema() -> dy::Schema {
+    use dy::TypeRef as T;
+    let int = || T::named(T::INT);
+    let obj = |n: &str| T::named(n);
+    let query = dy::Object::new("Query")
+        .field(dyn_field("a", obj("A")))
+        .field(dyn_field("b", obj("B")))
+        .field(dyn_field("c", obj("C")))
+        .field(dyn_field("as", T::named_nn_list("A")))
+        .field(dyn_field("num", int()));
+    let mutation = dy::Object::new("Mutation")
+        .field(dyn_field("a", obj("A")))
+        .field(dyn_field("b", obj("B")))
+        .field(dyn_field("num", int()))
+        .field(dyn_field("numReq", T::named_nn(T::INT)));
+    let a = dy::Object::new("A")
+        .field(dyn_field("id", T::named_nn(T::INT)))
+        .field(dyn_field("num", int()))
+        .field(dyn_field("child", obj("A")))
+        .field(dyn_field("bee", obj("B")))
+        .field(dyn_field("children", T::named_nn_list("A")));
+    let b = dy::Object::new("B")
+        .field(dyn_field("id", T::named_nn(T::INT)))
+        .field(dyn_field("num", int()))
+        .field(dyn_field("cee", obj("C")))
+        .field(dyn_field("ay", obj("A")));
+    let c = dy::Object::new("C")
+        .field(dyn_field("id", T::named_nn(T::INT)))
+        .field(dyn_field("num", int()))
+        .field(dyn_field("back", obj("A")))
+        .field(dyn_field("bees", T::named_nn_list("B")));
+    dy::Schema::build("Query", Some("Mutation"), None)
+        .register(query)
+        .register(mutation)
+        .register(a)
+        .register(b)
+        .register(c)
+        .finish()
+        .expect("dynamic schema")
 }
 
 // ------------------------------------------------------------------ generation
@@ -251,65 +325,100 @@ fn sched_sexp(intended: Sexp, gates: &[(GateKey, u32)]) -> Sexp {
 pub fn gen_case(rng: &mut Rng, _i: usize, o: &Opts, dist: &mut Dist) -> Sexp {
     thread_local! {
         static SD: SchemaD = SchemaD::from_sdl(&build_schema().sdl());
+        static SD_DYN: SchemaD = SchemaD::from_sdl(&build_dyn_schema().sdl());
     }
-    SD.with(|sd| {
-        let stream = o.stream.as_str();
-        if stream == "witness" {
-            return witness_case(sd, _i);
-        }
-        let op_ty = match stream {
-            "once" => {
-                if rng.chance(1, 2) { "mutation" } else { "query" }
-            }
-            _ => "query",
+    let dynamic = o.stream.starts_with("dyn");
+    let key = if dynamic { &SD_DYN } else { &SD };
+    key.with(|sd| {
+        // `dyn-once` / `dyn-order`: the same streams against the dynamic schema (fault-free worlds)
+        let kind = match o.stream.as_str() {
+            "once" => "once",
+            "nonnull" => "nonnull",
+            "dyn-once" => "dyn-once",
+            "dyn-order" => "dyn-order",
+            _ => "order",
         };
-        dist.hit(&format!("op_{op_ty}"));
-        let budget = match stream {
-            "once" => 6 + rng.below(6),
-            _ => *rng.pick(&[4usize, 5, 6, 8, 10, 12, 14]),
+        let stream = match o.stream.as_str() {
+            "dyn-once" => "once",
+            "dyn-order" => "order",
+            x => x,
         };
-        let directives = rng.chance(1, 4);
-        let (mut doc, vars) = gen_request_b(sd, rng, dist, op_ty, directives, budget, 3);
-        let root = if op_ty == "mutation" { sd.mutation.clone().unwrap() } else { sd.query.clone() };
-        if stream == "once" || rng.chance(1, 4) {
-            let mut frags = std::mem::take(&mut doc.frags);
-            let chance = if stream == "once" { 9 } else { 4 };
-            add_repeats(sd, &mut doc.ops[0].sels, &root, &mut frags, rng, dist, chance);
-            doc.frags = frags;
+        if stream == "witness" || stream == "dyn-witness" {
+            return witness_case(sd, _i, dynamic);
         }
-        let text = print_doc(&mut doc);
-        let w = match stream {
-            "nonnull" => {
-                dist.hit("world_faults_anywhere");
-                let f = *rng.pick(&[2usize, 4]);
-                WorldGen { sd, fail_16: f, nonfinite: false }.generate(rng, &root, dist)
-            }
-            "once" => {
-                let f = *rng.pick(&[0usize, 0, 1, 2]);
-                world_nullable_faults(sd, rng, &root, f, dist)
-            }
-            _ => {
-                let f = *rng.pick(&[0usize, 2, 4, 6]);
-                world_nullable_faults(sd, rng, &root, f, dist)
+        // rejection sampling: up to 6 (document, world) candidates, the first one in which enough
+        // resolver occurrences actually run is kept (many random queries stop at a null or a fault)
+        let want = if stream == "once" { 2 } else { *rng.pick(&[2usize, 3, 4, 4, 5, 6]) };
+        let mut attempt = 0;
+        let (mut parts, keys, d_acc) = loop {
+            attempt += 1;
+            let mut d_try = Dist::default();
+            let (parts, keys) = {
+                let dist = &mut d_try;
+                let op_ty = match stream {
+                    "once" => {
+                        if rng.chance(1, 2) { "mutation" } else { "query" }
+                    }
+                    _ => "query",
+                };
+                dist.hit(&format!("op_{op_ty}"));
+                let budget = match stream {
+                    "once" => 6 + rng.below(6),
+                    _ => *rng.pick(&[4usize, 5, 6, 8, 10, 12, 14]),
+                };
+                let directives = !dynamic && rng.chance(1, 4);
+                let (mut doc, vars) = gen_request_b(sd, rng, dist, op_ty, directives, budget, 3);
+                let root = if op_ty == "mutation" { sd.mutation.clone().unwrap() } else { sd.query.clone() };
+                if stream == "once" || rng.chance(1, 4) {
+                    let mut frags = std::mem::take(&mut doc.frags);
+                    let chance = if stream == "once" { 9 } else { 4 };
+                    add_repeats(sd, &mut doc.ops[0].sels, &root, &mut frags, rng, dist, chance);
+                    doc.frags = frags;
+                }
+                let text = print_doc(&mut doc);
+                let w = match stream {
+                    "nonnull" => {
+                        dist.hit("world_faults_anywhere");
+                        let f = *rng.pick(&[2usize, 4]);
+                        WorldGen { sd, fail_16: f, nonfinite: false }.generate(rng, &root, dist)
+                    }
+                    _ if dynamic => world_nullable_faults(sd, rng, &root, 0, dist),
+                    "once" => {
+                        let f = *rng.pick(&[0usize, 0, 1, 2]);
+                        world_nullable_faults(sd, rng, &root, f, dist)
+                    }
+                    _ => {
+                        let f = *rng.pick(&[0usize, 2, 4, 6]);
+                        world_nullable_faults(sd, rng, &root, f, dist)
+                    }
+                };
+                let parts = vec![
+                    sd.to_sexp(),
+                    doc.to_sexp(),
+                    doc.ops[0].name.as_ref().map(|n| st(n.clone())).unwrap_or(atom("none")),
+                    vars_sexp(&vars),
+                    w.to_sexp(),
+                    st(text),
+                ];
+                // discovery: which resolver occurrences run when every gate is open
+                let probe = node("case", { let mut p = parts.clone(); p.push(node("scheds", vec![])); p.push(atom(kind)); p });
+                let (_, pw) = execute(&probe, Some(Sched::default()));
+                let mut keys: Vec<GateKey> = vec![];
+                for e in pw.trace.lock().unwrap().iter() {
+                    if !e.end && !keys.contains(&e.at) {
+                        keys.push(e.at.clone());
+                    }
+                }
+                (parts, keys)
+            };
+            if keys.len() >= want || attempt >= 6 {
+                break (parts, keys, d_try);
             }
         };
-        let mut parts = vec![
-            sd.to_sexp(),
-            doc.to_sexp(),
-            doc.ops[0].name.as_ref().map(|n| st(n.clone())).unwrap_or(atom("none")),
-            vars_sexp(&vars),
-            w.to_sexp(),
-            st(text),
-        ];
-        // discovery: which resolver occurrences run when every gate is open
-        let probe = node("case", { let mut p = parts.clone(); p.push(node("scheds", vec![])); p });
-        let (_, pw) = execute(&probe, Some(Sched::default()));
-        let mut keys: Vec<GateKey> = vec![];
-        for e in pw.trace.lock().unwrap().iter() {
-            if !e.end && !keys.contains(&e.at) {
-                keys.push(e.at.clone());
-            }
+        for (k, v) in d_acc.0.iter() {
+            dist.add(k, *v);
         }
+        dist.hit(&format!("candidates_drawn_{attempt}"));
         dist.hit(&format!("resolver_occurrences_{}", match keys.len() { 0 => "0", 1..=3 => "1-3", 4..=6 => "4-6", 7..=12 => "7-12", _ => "13+" }));
         let mut scheds = vec![sched_sexp(atom("none"), &[])];
         let exhaustive = stream != "once" && keys.len() <= 6 && keys.len() >= 2;
@@ -333,7 +442,7 @@ pub fn gen_case(rng: &mut Rng, _i: usize, o: &Opts, dist: &mut Dist) -> Sexp {
             }
         }
         parts.push(node("scheds", scheds));
-        parts.push(atom(match stream { "once" => "once", "nonnull" => "nonnull", _ => "order" }));
+        parts.push(atom(kind));
         node("case", parts)
     })
 }
@@ -346,8 +455,10 @@ fn fld(name: &str, sels: Vec<SelN>) -> SelN {
 
 /// 0: `mutation Op { num num }` (C04: one response key, two resolver runs);
 /// 1: `{ a { name num } }` with both nullable fields of A failing, completing in either order (C05)
-fn witness_case(sd: &SchemaD, i: usize) -> Sexp {
-    let (op_ty, sels, entries, kind) = if i % 2 == 0 {
+fn witness_case(sd: &SchemaD, i: usize, dynamic: bool) -> Sexp {
+    let (op_ty, sels, entries, kind) = if dynamic {
+        ("mutation", vec![fld("num", vec![]), fld("num", vec![])], vec![((0u32, "num".to_string()), RVal::Leaf(GV::Int(1)))], "dyn-once")
+    } else if i % 2 == 0 {
         ("mutation", vec![fld("num", vec![]), fld("num", vec![])], vec![((0u32, "num".to_string()), RVal::Leaf(GV::Int(1)))], "once")
     } else {
         (
@@ -364,7 +475,7 @@ fn witness_case(sd: &SchemaD, i: usize) -> Sexp {
     let mut doc = DocN { ops: vec![OpN { ty: op_ty.into(), name: Some("Op".into()), vars: vec![], sels }], frags: vec![] };
     let text = print_doc(&mut doc);
     let mut scheds = vec![sched_sexp(atom("none"), &[])];
-    if i % 2 == 1 {
+    if !dynamic && i % 2 == 1 {
         if let SelN::Field { sels, .. } = &doc.ops[0].sels[0] {
             if let SelN::Field { pos, .. } = &sels[0] {
                 let k: GateKey = (vec![Seg::Key("a".into())], "name".into(), *pos);
